@@ -16,6 +16,8 @@ type rrStressCase struct {
 	K      int    `json:"k"`      // every backend must receive exactly k of the n*k requests
 	Offset int    `json:"offset"` // requests issued before the round (rotation offset)
 	Via    string `json:"via"`
+	Obs    bool   `json:"observer,omitempty"` // a goroutine keeps issuing admin/monitoring calls during the round
+	Load   []int  `json:"inflight,omitempty"` // in-flight counts put on the backends (IncrementConnections)
 	Round  int    `json:"round,omitempty"`
 }
 
@@ -26,7 +28,8 @@ func rrRound(c rrStressCase) (map[string]int, []string, error) {
 	if err != nil {
 		return nil, nil, err
 	}
-	defer p.lb.Stop()
+	defer p.close()
+	p.applyLoad(loadPlan{Pre: c.Load})
 	for i := 0; i < c.Offset; i++ {
 		p.pick("next")
 	}
@@ -53,11 +56,26 @@ func rrRound(c rrStressCase) (map[string]int, []string, error) {
 			}
 		}(g, mine)
 	}
+	var stopObs int32
+	var owg sync.WaitGroup
+	if c.Obs {
+		p.observe(0) // build the admin mux before the goroutines start
+		owg.Add(1)
+		go func() {
+			defer owg.Done()
+			for k := 0; atomic.LoadInt32(&stopObs) == 0; k++ {
+				p.observe(k)
+				runtime.Gosched()
+			}
+		}()
+	}
 	for atomic.LoadInt32(&ready) < int32(c.G) {
 		runtime.Gosched()
 	}
 	atomic.StoreInt32(&goFlag, 1)
 	wg.Wait()
+	atomic.StoreInt32(&stopObs, 1)
+	owg.Wait()
 	sum := map[string]int{}
 	for _, m := range per {
 		for b, v := range m {
@@ -83,7 +101,8 @@ func rrJudge(c rrStressCase, sum map[string]int, names []string) string {
 func TestC05RRConcurrent(t *testing.T) {
 	const name = "rr-concurrent"
 	sub := lab.Sub(name, "spin-barrier stress on real threads (not in a synctest bubble): G in {2,4,8,16,32,64} goroutines issue n*k requests in total "+
-		"(n 1..8, k 50..4000, drawn rotation offset) through lb.NextBackend or lb.ServeHTTP(L1) against one round_robin pool; oracle: every backend received "+
+		"(n 1..8, k 50..4000, drawn rotation offset) through lb.NextBackend or lb.ServeHTTP(L1) against one round_robin pool; in half of the rounds one more goroutine keeps issuing admin/monitoring calls, "+
+		"in half the backends carry in-flight counts from {0,1,99,100,101,500}; oracle: every backend received "+
 		"exactly k; non-trivial = n>=2 (G>=2 always); distinct = distinct (G,n,k,offset,via) cells, rounds repeat cells to sample schedules")
 	sub.NontrivialFloor(0.8)
 	var rc rrStressCase
@@ -114,13 +133,26 @@ func TestC05RRConcurrent(t *testing.T) {
 				c.K = 1000
 			}
 		}
+		c.Obs = (x/5)%2 == 0
+		if (x/7)%2 == 0 {
+			for j := 0; j < c.N; j++ {
+				c.Load = append(c.Load, inflightMagnitudes[(x/11+j*5)%len(inflightMagnitudes)])
+			}
+		}
 		sum, names, err := rrRound(c)
 		if err != nil {
 			t.Fatalf("harness: %v", err)
 		}
 		key := c
 		key.Round = 0
-		sub.Case(key, c.N >= 2, fmt.Sprintf("G%d", c.G), fmt.Sprintf("n%d", c.N), "via-"+c.Via)
+		labels := []string{fmt.Sprintf("G%d", c.G), fmt.Sprintf("n%d", c.N), "via-" + c.Via}
+		if c.Obs {
+			labels = append(labels, "observer-goroutine")
+		}
+		if len(c.Load) > 0 {
+			labels = append(labels, "inflight-preloaded")
+		}
+		sub.Case(key, c.N >= 2, labels...)
 		if v := rrJudge(c, sum, names); v != "" {
 			lab.Violation(t, name, c, "%s", v)
 		}
